@@ -5,17 +5,24 @@ from zw import walk, walk_nolambda, unwrap, short, Broken, calls
 from r_scope import switch_groups
 
 
-def strval(e):
-    """string literal value of e; sees through std::string construction and `lit + N` pointer arithmetic"""
+def strval(e, scope=None):
+    """string literal value of e; sees through std::string construction, `lit + N` pointer arithmetic and, when the enclosing
+    function body is given as `scope`, a local that is initialised with a literal and never assigned afterwards"""
     e = unwrap(e)
     if not isinstance(e, dict):
         return None
     if e.get("k") == "str":
         return e["v"]
     if e.get("k") == "ctor" and e.get("c", "").startswith("std::basic_string<") and e["a"]:
-        return strval(e["a"][0])
+        return strval(e["a"][0], scope)
+    if e.get("k") == "ref" and e.get("d") in ("local", "slocal") and scope is not None:
+        inits = [v.get("init") for x in walk(scope) if x.get("k") == "decl" for v in x["vars"] if v["id"] == e.get("id")]
+        assigned = any(x.get("k") == "asg" and isinstance(unwrap(x["lhs"]), dict) and unwrap(x["lhs"]).get("id") == e.get("id") for x in walk(scope))
+        if len(inits) == 1 and inits[0] is not None and not assigned:
+            return strval(inits[0], None)
+        return None
     if e.get("k") == "bin" and e.get("op") == "+":
-        s = strval(e["lhs"])
+        s = strval(e["lhs"], scope)
         r = unwrap(e["rhs"])
         if s is not None and isinstance(r, dict) and r.get("k") == "int":
             return s[r["v"]:]
